@@ -896,7 +896,18 @@ class Elemwise(Blockwise):
         args = list(self.elemwise_args)
         if self.where is not True:
             args.extend([self.where, self.out])
-        return compute_meta(self._info[0], self.dtype, *args, **self.kwargs)
+        meta = compute_meta(self._info[0], self.dtype, *args, **self.kwargs)
+        if meta is None and self.where is not True:
+            # The masked call often cannot be replayed on zero-size metas (the
+            # metas of ``where`` and ``out`` need not broadcast against each
+            # other).  The result of a ufunc with ``out=`` is an array like
+            # ``out`` of this node's dtype; consumers (SetItem, slicing,
+            # persist) need that much to go on.
+            from dask_array._utils import meta_from_array
+
+            like = self.out._meta if hasattr(self.out, "_meta") else None
+            meta = meta_from_array(like, ndim=self.ndim, dtype=self.dtype)
+        return meta
 
     @property
     def elemwise_args(self):
